@@ -116,6 +116,11 @@ def find_state(current_state_machine, current_state, force_full_lookup=False):
         """
         path = get_full_jsonpath(current_state_machine, "$.." + current_state)
         if path:
+            # Only members of a "States" object (or of the top level) are states.
+            suffix = "['" + current_state + "']"
+            path = [p for p in path if p == "$" + suffix or
+                    p.endswith("['States']" + suffix)]
+        if path:
             states_path = path[0].rpartition("['States']")[0]
             if states_path:
                 branch = apply_jsonpath(current_state_machine, states_path)
